@@ -167,7 +167,11 @@ func presence(m proto.Message) string {
 
 var ptrRe = regexp.MustCompile(`0x[0-9a-fA-F]{6,}`)
 
-func maskPtr(s string) string { return s }
+// maskPtr used to mask what looks like an address in error text; the unchanged library prints none
+// and a change that does is reported (S100). What IS normalised: protobuf-go deliberately varies
+// the space after "proto:" in its error texts (a non-breaking space, chosen by a hash of the
+// binary) so that nobody depends on them - the plain and the race binary differ there.
+func maskPtr(s string) string { return strings.ReplaceAll(s, "\u00a0", " ") }
 
 type sentinel struct {
 	name string
